@@ -124,6 +124,9 @@ func initCtxStubs() {
 		return ret(st, e.ctxErrValue(st, c, d))
 	}
 	stubTable[cc+"Done"] = func(e *Exec, st *State, fn *Func, args []Value, site string) []Outcome {
+		if e.conc != nil {
+			return ret(st, e.conc.doneChan(e, st, args[0].(Ptr)))
+		}
 		obj := e.objContent(st, args[0].(Ptr).Obj).(*Struct)
 		return ret(st, obj.F[cxDone])
 	}
